@@ -492,7 +492,12 @@ func ruleBuiltinLists(r *Run) {
 	if fn == nil {
 		return
 	}
-	// string constants compared with a load of IntrospectionQueryDirective.Name whose true side continues the loop
+	dirName, dirStruct := r.directiveNameField()
+	if dirName == nil {
+		r.Bad(rule, fnName(fn), "anchor the decoded name of a directive", r.P.pos(fn.Pos()), "the struct the directives of the answer are decoded into (key `__schema.directives`, field `name`) was not found: the list of skipped directives could not be checked")
+		return
+	}
+	// string constants compared with a load of the decoded directive name whose true side continues the loop
 	skipped := map[string]bool{}
 	var blocks []*ssa.BasicBlock
 	for g := range r.P.CG.Reachable([]*ssa.Function{fn}, nil) {
@@ -513,15 +518,31 @@ func ruleBuiltinLists(r *Run) {
 		if !ok || k.Value == nil || k.Value.Kind() != constant.String {
 			continue
 		}
+		// the name of a directive of the answer, by role: the field decoded from `name` of the
+		// struct decoded from `__schema.directives` (whatever the struct is called; the field
+		// may be promoted from an embedded struct)
 		nameLoad := false
+		ofDirective := func(f *types.Var, base ssa.Value) bool {
+			if f == nil || f != dirName {
+				return false
+			}
+			if derefType(base.Type()) == types.Type(dirStruct) {
+				return true
+			}
+			switch y := base.(type) {
+			case *ssa.FieldAddr:
+				return derefType(y.X.Type()) == types.Type(dirStruct)
+			case *ssa.Field:
+				return derefType(y.X.Type()) == types.Type(dirStruct)
+			}
+			return false
+		}
 		switch x := bo.X.(type) {
 		case *ssa.Field:
-			if f := fieldOfVal(x); f != nil && f.Name() == "Name" && strings.HasSuffix(namedOf(x.X.Type()), "IntrospectionQueryDirective") {
-				nameLoad = true
-			}
+			nameLoad = ofDirective(fieldOfVal(x), x.X)
 		case *ssa.UnOp:
-			if fa, ok := x.X.(*ssa.FieldAddr); ok && fieldOf(fa) != nil && fieldOf(fa).Name() == "Name" && strings.HasSuffix(namedOf(fa.X.Type()), "IntrospectionQueryDirective") {
-				nameLoad = true
+			if fa, ok := x.X.(*ssa.FieldAddr); ok {
+				nameLoad = ofDirective(fieldOf(fa), fa.X)
 			}
 		}
 		if !nameLoad {
